@@ -182,8 +182,8 @@ def oracle_c20(ctx, budget_s):
                 continue
             tup = sp.experiments_to_tuples(blk, exps)
             dic = sp.experiments_to_dicts(blk, exps)
-            for f in os.listdir("."):
-                os.unlink(f)
+            # exported twice under the same prefix (first in another order): the files must hold the last export only
+            sp.save_experiments_csv(blk, exps[::-1], "o")
             sp.save_experiments_csv(blk, exps, "o")
             order = [f.name for f in blk.design if not isinstance(f.name, HiddenName)]
             for i, e in enumerate(exps):
